@@ -6,7 +6,7 @@ TRANSLATORS = []
 LEVEL = "proof"
 ASSUMPTIONS = [
     "the adapter is faithful: ordered rule sets per policy type that apply exactly the call they are given and never answer False (it implements Adapter, BatchAdapter and UpdateAdapter)",
-    "clear_policy (not a management call; it never talks to the adapter), update_policies has its own mirror theorem (Props/C09u mirror_updateMany, pairwise different old rules), update_filtered_policies too (Props/UpdFiltered mirror)",
+    "clear_policy (not a management call; it never talks to the adapter), update_policies has its own mirror theorem (Props/C09u mirror_updateMany, any batch: one naming an old rule twice is refused), update_filtered_policies too (Props/UpdFiltered mirror)",
 ]
 TRUSTED_EXTRA = []
 
@@ -39,7 +39,7 @@ def judge_factory():
                 what = f"the call reported {rec['ret']} but told the adapter {rec['acalls']}"
             elif not before_on and rec["acalls"]:
                 what = f"auto-save is off but the adapter was told {rec['acalls']}"
-            elif not ever_off and not rec["mirror"] and not any(o[0] == "clear" or (o[0] == "updatemany" and len({tuple(r) for r in o[1]}) < len(o[1])) for o in hist[: i + 1]):
+            elif not ever_off and not rec["mirror"] and not any(o[0] == "clear" for o in hist[: i + 1]):
                 what = f"after the call (result {rec['ret']}) the adapter holds {rec['store']} while memory holds {rec['pol']}"
         elif op[0] == "save":
             if not rec["mirror"]:
@@ -64,6 +64,9 @@ def gen(ctx, deep):
         P, G, G2, R = ec.universe(shape)
         ops = [o for o in ec.op_alphabet(shape) if o[0] in CHANGE or o[0] in ("save", "load")]
         ops += [("update", P[0], P[1]), ("updatemany", [P[0], P[1]], [P[1], P[0]])]
+        # batch updates naming the same old rule twice, and chains through a rule that is itself replaced
+        fresh = [P[0][:-1] + ["other"], P[1][:-1] + ["other"]]
+        ops += [("updatemany", [P[0], P[0]], fresh), ("updatemany", [P[0], P[0]], [fresh[0], fresh[0]]), ("updatemany", [P[0], P[1]], [P[1], fresh[0]])]
         inits = [{"p": [], "g": [], "g2": []}, {"p": P, "g": G, "g2": G2}]
         for init in inits:
             cfg = ec.Config(shape, adapter=True, watcher=None, initial=init)
